@@ -25,8 +25,8 @@ Layouts == << <<"2006", "-", "01", "-", "02">>, <<"15", ":", "04", ":", "05">>, 
 LayoutArg(l) == S(Flatten3([j \in 1..Len(l) |-> [c \in 1..1 |-> l[j]]]))
 
 \* C17 alphabets
-EscAlpha == <<"&", "<", ">", "\"", "'", "a", "EACUTE", ";", "#", "3">>
-SlashAlpha == <<"\\", "\"", "'", "a", "n", " ">>
+EscAlpha == <<"&", "<", ">", "\"", "'", "a", "EACUTE", ";", "#", "3", "BAD">>
+SlashAlpha == <<"\\", "\"", "'", "a", "n", " ", "BAD", "EACUTE">>      \* (BAD: a byte that is no valid UTF-8 - kept as it is)
 JsAlpha == <<"a", "Z", " ", "/", "<", "\"", "'", "\\", "r", "n", "0", "NL", "EACUTE", "EURO", "EMOJI", "FFFD", "-", ";">>
 UrlAlpha == <<"a", "7", "-", "_", ".", "~", " ", "/", "&", "=", "?", "%", "+", "EACUTE", "CJK", "EMOJI", "#", ":", "BAD", "'", "*", "(">>
 WordAlpha == <<"a", "B", "z", " ", "NL", "'", "-", "7", "EACUTE", "_">>
@@ -68,7 +68,9 @@ Init ==
                  \/ vec = Vec("default", Nums[a], Nums[b], FilterRef("default", Nums[a], Nums[b]))
                  \/ vec = Vec("default_if_none", Nums[a], Nums[b], FilterRef("default_if_none", Nums[a], Nums[b]))
             \/ \E a \in (0 - 12)..24, b \in (0 - 4)..6 : vec = Vec("divisibleby", I(a), I(b), FilterRef("divisibleby", I(a), I(b)))
-            \/ \E a \in {0, 5, 42, 907, 1234}, b \in (0 - 1)..5 : vec = Vec("get_digit", I(a), I(b), FilterRef("get_digit", I(a), I(b)))
+            \/ \E a \in {0, 5, 42, 907, 1234, 0 - 7, 0 - 42, 0 - 907, 0 - 1200}, b \in (0 - 1)..6 :
+                  /\ ~(a < 0 /\ b = Len(IntStr(0 - a)) + 1)       \* (the position of the sign)
+                  /\ vec = Vec("get_digit", I(a), I(b), FilterRef("get_digit", I(a), I(b)))
             \/ \E a \in 1..Len(Nums), p \in 1..Len(PlArgs) : vec = Vec("pluralize", Nums[a], PlArgs[p], FilterRef("pluralize", Nums[a], PlArgs[p]))
             \/ \E a \in 1..Len(Nums), p \in 1..Len(YnArgs) : vec = Vec("yesno", Nums[a], YnArgs[p], FilterRef("yesno", Nums[a], YnArgs[p])))
        [] Family = "float" -> (
